@@ -12,6 +12,9 @@ use std::fmt::Debug;
 
 pub struct Sc;
 impl SubCheck for Sc {
+    fn fuzzable(&self) -> bool {
+        true
+    }
     type Case = HistCase;
     fn name(&self) -> &'static str {
         "sequential_consistency_vs_brute_force"
@@ -57,6 +60,9 @@ where
 
 pub struct LinImpliesSc;
 impl SubCheck for LinImpliesSc {
+    fn fuzzable(&self) -> bool {
+        true
+    }
     type Case = HistCase;
     fn name(&self) -> &'static str {
         "linearizable_implies_sequentially_consistent"
@@ -130,6 +136,9 @@ where
 
 pub struct CloneDiscipline;
 impl SubCheck for CloneDiscipline {
+    fn fuzzable(&self) -> bool {
+        true
+    }
     type Case = CloneCase;
     fn name(&self) -> &'static str {
         "testers_are_plain_values"
